@@ -83,8 +83,8 @@ def strong_records(ctx, n_q, n_t):
 
 def run_C03(ctx):
     V.build()
-    cases, usable, skipped, panics = strong_records(ctx, 180, 1500)
-    verdicts = V.tlc_validate(ctx, "TraceSem", usable, {"VERIF_HTCAP": 6 if ctx.quick() else 7})
+    cases, usable, skipped, panics = strong_records(ctx, 180, 260)
+    verdicts = V.tlc_validate(ctx, "TraceSem", usable, {"VERIF_HTCAP": 6})
     stats, violations = V.collect(verdicts, usable, "C03")
     for v in violations:
         v["detail"] += f"  [flags: {v['verdict'].get('note')}]"
@@ -233,8 +233,8 @@ def ext_records(ctx, n_q, n_t):
 
 def run_C02(ctx):
     V.build()
-    cases, usable, skipped, panics, refused = ext_records(ctx, 90, 2500)
-    verdicts = V.tlc_validate(ctx, "TraceSem", usable, {"VERIF_CLCAP": 9 if ctx.quick() else 11})
+    cases, usable, skipped, panics, refused = ext_records(ctx, 90, 420)
+    verdicts = V.tlc_validate(ctx, "TraceSem", usable, {"VERIF_CLCAP": 9 if ctx.quick() else 10})
     stats, violations = V.collect(verdicts, usable, "C02")
     for v in violations:
         v["detail"] += f"  [flags: {v['verdict'].get('note')}]"
@@ -270,8 +270,8 @@ def run_C19(ctx):
         raise V.ToolError("design check Decompose.tla failed")
     # every flag combination for every task (the quick tiers of C02/C03 use subsets)
     orig_quick = ctx.tier
-    s_cases, s_usable, s_skipped, s_panics = strong_records(ctx, 45, 1200)
-    e_cases, e_usable, e_skipped, e_panics, refused = ext_records(ctx, 45, 1800)
+    s_cases, s_usable, s_skipped, s_panics = strong_records(ctx, 45, 110)
+    e_cases, e_usable, e_skipped, e_panics, refused = ext_records(ctx, 45, 160)
     if q:
         # re-run the harness with the full families for the usable cases
         allS, allE = flagsets(), ext_flagsets()
@@ -289,7 +289,7 @@ def run_C19(ctx):
                 usable.append(r)
     else:
         usable = s_usable + e_usable
-    verdicts = V.tlc_validate(ctx, "TraceSem", usable, {"VERIF_HTCAP": 5 if q else 6, "VERIF_CLCAP": 9 if q else 11})
+    verdicts = V.tlc_validate(ctx, "TraceSem", usable, {"VERIF_HTCAP": 5 if q else 6, "VERIF_CLCAP": 9 if q else 10})
     stats, violations = V.collect(verdicts, usable, "C19")
     for p in s_panics + e_panics:
         violations.append({"check": "C19.panic", "text": p["text"], "detail": f"anthem panicked under {p['flags']}: {p['panic']}", "record": p})
